@@ -401,6 +401,10 @@ func restoreSectionTTL(rrs []dnsmessage.RR, scratch []uint32) {
 // returning. This preserves the stored RR values while avoiding deep copies on
 // the cold cache-insert path.
 func (c *DnsCache) prepackResponseBeforeStore(qname string, qtype uint16, ttl uint32, now time.Time) error {
+	// Cache deadline as UnixNano for fast comparison (as PrepackResponse does);
+	// GetPackedResponseWithApproximateTTL and GetStaleResponse depend on it.
+	c.deadlineNano.Store(c.Deadline.UnixNano())
+
 	var question [1]dnsmessage.Question
 	question[0] = dnsmessage.Question{Name: qname, Qtype: qtype, Qclass: dnsmessage.ClassINET}
 
